@@ -323,17 +323,31 @@ theorem inv_lateInput {st : State} (h : Inv st) {c : Conn} (hc : c ∈ st.conns)
   | eof => exact inv_rtspInput h hc _
   | idle => exact inv_rtspInput h hc _
 
+theorem inv_connInput0 {st : State} (h : Inv st) {c : Conn} (hc : c ∈ st.conns) (i : Input) :
+    Inv (connInput0 st c i).1 := by
+  unfold connInput0
+  split
+  · split
+    · exact inv_closeConn h hc
+    · exact h
+  · exact inv_freshInput h hc i
+  · exact inv_lateInput h hc i
+
+theorem inv_rearm {st : State} (h : Inv st) (c : ConnId) : Inv (rearm st c) := by
+  unfold rearm
+  split
+  · rename_i x hf
+    exact inv_setConn h (findConn_some hf).1 _ rfl (Or.inl rfl)
+  · exact h
+
 theorem inv_connInput {st : State} (h : Inv st) {c : Conn} (hc : c ∈ st.conns) (i : Input) :
     Inv (connInput st c i).1 := by
   unfold connInput
   split
   · exact h
   · split
-    · split
-      · exact inv_closeConn h hc
-      · exact h
-    · exact inv_freshInput h hc i
-    · exact inv_lateInput h hc i
+    · exact inv_connInput0 h hc i
+    · exact inv_rearm (inv_connInput0 h hc i) _
 
 theorem inv_step {st : State} (h : Inv st) (e : Event) : Inv (step st e).1 := by
   cases e with
